@@ -320,7 +320,12 @@ fn model_map(c: &MapCase) -> BTreeMap<u16, String> {
             let mut t = text_of(cps);
             // even-length runs get consecutive final characters (the increment form applies), odd ones do not
             let step = if len % 2 == 0 { 1 } else { 3 };
-            t.push(char::from_u32(0x41 + ((k * step) % 50)).unwrap());
+            if len % 4 == 0 {
+                // the run's last text ends in byte 0xFF (the increment form may run up to, not past, 0xFF)
+                t.push(char::from_u32(0x100 - *len as u32 + k).unwrap());
+            } else {
+                t.push(char::from_u32(0x41 + ((k * step) % 50)).unwrap());
+            }
             m.insert(code as u16, t);
         }
     }
@@ -372,7 +377,13 @@ pub fn cmap_text(m: &BTreeMap<u16, String>, tape: &[u8], one_byte: bool) -> (Vec
             }
             i = j + 1;
         } else {
-            chars.push(items[i].clone());
+            if t.choose(5) == 1 {
+                // a range of one code in the string form
+                ranges.push(format!("{} {} <{}>", code(items[i].0), code(items[i].0), utf16_hex(&items[i].1)));
+                labels.push("bfrange/one-code".to_string());
+            } else {
+                chars.push(items[i].clone());
+            }
             i += 1;
         }
     }
@@ -491,4 +502,4 @@ pub fn run(ctx: &Ctx) {
     );
 }
 
-pub const RULE: &str = "cases = (a) composite fonts whose /W array has 0-13 groups over disjoint code ranges in 0..65535 written in any order, in both forms (c [w...] incl. an indirect array, c1 c2 w), with or without /DW; queried at every range boundary +-1, 0, 65535 and random codes; (b) simple fonts with FirstChar 0-255 and 0-256 widths; (c) maps u16 -> non-empty strings (BMP, supplementary planes, multi-character, runs of consecutive codes) written by write_cmap and read back; (d) independent conformant CMap texts (boilerplate, codespace ranges, bfchar, both bfrange forms, 1- and 2-byte codes, blocks <= 100); all read through a font object in a file written by the harness; oracle = model map / model widths; non-trivial = >=3 groups not in ascending order, a map with a run of consecutive codes, a text with a bfrange; distinct by array / text";
+pub const RULE: &str = "cases = (a) composite fonts whose /W array has 0-13 groups over disjoint code ranges in 0..65535 written in any order, in both forms (c [w...] incl. an indirect array, c1 c2 w), with or without /DW; queried at every range boundary +-1, 0, 65535 and random codes; (b) simple fonts with FirstChar 0-255 and 0-256 widths; (c) maps u16 -> non-empty strings (BMP, supplementary planes, multi-character, runs of consecutive codes) written by write_cmap and read back; (d) independent conformant CMap texts (boilerplate, codespace ranges, bfchar, both bfrange forms incl. one-code ranges and increment runs ending in byte 0xFF, 1- and 2-byte codes, blocks <= 100); all read through a font object in a file written by the harness; oracle = model map / model widths; non-trivial = >=3 groups not in ascending order, a map with a run of consecutive codes, a text with a bfrange; distinct by array / text";
